@@ -61,7 +61,10 @@ class BufferReader {
     const std::size_t length = end - begin;
     const std::size_t length_bytes = length * element_size;
 
-    std::memcpy(begin, &buffer_[index_], length_bytes);
+    // An empty range may be denoted by null pointers (the data() of an empty
+    // vector): memcpy requires valid pointers even when the length is zero.
+    if (length_bytes > 0)
+      std::memcpy(begin, &buffer_[index_], length_bytes);
     index_ += length_bytes;
     return {};
   }
